@@ -1,4 +1,5 @@
 (* C07 — server protocol violations are contained.  This file only pins statements. *)
+From Amq Require Import Lib.RsVal Gen.SrcException Proofs.ExceptionSrc.
 From Amq Require Import Lib.Base Gen.Consts Model.Wire Model.Frames Model.OutBuf Model.Collector
      Model.Slots Model.Core Spec.Content Proofs.Collector Proofs.CoreInv.
 
@@ -73,6 +74,15 @@ Theorem C07_exception_ignores : forall c f,
   c_phase c = PClientException -> process c f = (OOk, c).
 Proof. exact exception_ignores_frames. Qed.
 
+(* THE MODEL IS THE SOURCE: ConnectionState::client_exception of src/io_loop/connection_state.rs as translated from the source
+   text on every run (Gen/SrcException.v, tools/rs2sm.py: the boundary search is a recursive function on fuel), for EVERY reply
+   code and EVERY text whose first byte is not a UTF-8 continuation byte (any Rust String): the text cut to at most 255 bytes at
+   a character boundary exactly as the model's trunc255 cuts it, exactly one Connection.Close with that text and class / method
+   id 0 pushed on channel 0, the writes sealed, the state ClientException, Ok returned - what C07_exception_effect /
+   C07_exception_text say of Model/Core.v's client_exception (seed C07h cut at 255 characters: this obligation breaks). *)
+Theorem C07_client_exception_source_is_model : forall (self code : val) (s : list N) (log : list val), (forall b : N, nth_error s 0 = Some b -> is_cont b = false) -> gen_ConnectionState_client_exception ext_model 257 self (VC "effects" log) code (VBytes s) = ExceptionSrc.finish code (trunc255 s) log.
+Proof. exact client_exception_source_is_model. Qed.
+
 (* non-vacuity: from the initial state, a header announcing 2^64-1 bytes without a method
    and a frame on a channel that is not open are errors, not panics *)
 Example C07_example :
@@ -117,6 +127,8 @@ Check C07_exception_text : forall text,
 Check C07_exception_ignores : forall c f,
   c_phase c = PClientException -> process c f = (OOk, c).
 
+Check C07_client_exception_source_is_model : forall (self code : val) (s : list N) (log : list val), (forall b : N, nth_error s 0 = Some b -> is_cont b = false) -> gen_ConnectionState_client_exception ext_model 257 self (VC "effects" log) code (VBytes s) = ExceptionSrc.finish code (trunc255 s) log.
+
 Print Assumptions C07_no_panic.
 Print Assumptions C07_init.
 Print Assumptions C07_sound.
@@ -127,3 +139,4 @@ Print Assumptions C07_exception_effect.
 Print Assumptions C07_exception_text.
 Print Assumptions C07_exception_ignores.
 Print Assumptions C07_example.
+Print Assumptions C07_client_exception_source_is_model.
